@@ -114,14 +114,14 @@ __CPROVER_assigns(RG, TG, NG, KG, g_gc_allowed, *save_manifest, db->db_lock, db-
                   db->versions->log_number, db->versions->prev_log_number, db->versions->last_sequence, db->versions->next_file_number)
 __CPROVER_ensures(g_held)
 /* the handle owns the LOCK exactly when db_lock is set (so that a failed open can release it) */
-__CPROVER_ensures((db->db_lock != NULL) == (KG.locked == 1) && KG.unlock_calls == 0)
+__CPROVER_ensures((db->db_lock != NULL) == (KG.locked == 1) && (KG.locked == 0 || KG.locked == 1) && KG.unlock_calls == 0 && KG.lock_calls <= 1)
 __CPROVER_ensures(__CPROVER_return_value == LDB_OK ==> KG.locked == 1)
 /* after a successful recovery garbage may be collected at once only if nothing recovered still waits for a MANIFEST edit */
 __CPROVER_ensures(__CPROVER_return_value == LDB_OK ==> (g_gc_allowed || *save_manifest == 1))
 __CPROVER_ensures(*save_manifest == 0 || *save_manifest == 1)
-/* a memtable is handed back only together with the reused log it belongs to */
-__CPROVER_ensures(db->mem != NULL ==> (db->log != NULL && db->logfile != NULL))
-__CPROVER_ensures((db->log != NULL) == (db->logfile != NULL))
+__CPROVER_ensures(db->db_lock == NULL || db->db_lock == g_lock_obj_p)
+/* a memtable is handed back only together with the reused log it belongs to (all three, or none) */
+__CPROVER_ensures((db->mem == NULL && db->log == NULL && db->logfile == NULL) || (db->mem == g_rmem && db->log == g_rlog && db->logfile == g_rlogfile && g_rmem != NULL && g_rlog != NULL && g_rlogfile != NULL))
 /* G4/P4: the file-number allocator ends above every log that was replayed */
 __CPROVER_ensures(__CPROVER_return_value == LDB_OK ==> ((TG.n < 1 || db->versions->next_file_number > TG.replayed[0]) && (TG.n < 2 || db->versions->next_file_number > TG.replayed[1]) &&
    (TG.n < 3 || db->versions->next_file_number > TG.replayed[2]) && (TG.n < 4 || db->versions->next_file_number > TG.replayed[3])))
